@@ -66,6 +66,13 @@ def openFds (streams : Nat) (f : Fresh) (t : FdTable) : Opened :=
   let c := closeIf i.2 (closeIf e.1 (closeIf o.1 c))
   { parent := p, child := c, fdStdOutRead := o.1, fdStdErrRead := e.1, fdStdInWrite := i.2 }
 
+/-- the `error:` path of `open()` taken when vfork fails (repaired code): both ends of every pipe created are closed -/
+def closeBothIf (p : Nat × Nat) (t : FdTable) : FdTable := if p.1 ≠ 0 then close p.2 (close p.1 t) else t
+
+def openFdsFailed (streams : Nat) (f : Fresh) (t : FdTable) : FdTable :=
+  let (t, o, e, i) := createPipes streams f t
+  closeBothIf i (closeBothIf e (closeBothIf o t))
+
 /-- the descriptors returned by `pipe()` are unused, pairwise different and none of 0, 1, 2
     (the standard descriptors of the parent are open) -/
 def Fresh.Ok (f : Fresh) (t : FdTable) : Prop :=
